@@ -369,6 +369,12 @@ def pda_safe(spec):
 
 @st.composite
 def safe_pda(draw, small=False):
+    if not small and draw(st.integers(0, 5)) == 0:
+        # stacks that spell the same text with different symbols ([XY] vs [X, Y]): configurations that must not be identified
+        spec = draw(st.sampled_from([GP._ambiguous_stacks, GP._ambiguous_stacks2]))(draw(st.sampled_from(["ε", "", "_"])))
+        new = draw(G.names(len(spec["Q"])))
+        m = dict(zip(spec["Q"], new))
+        return dict(spec, Q=new, d=[[m[p], a, u, m[q], v] for p, a, u, q, v in spec["d"]], q0=m[spec["q0"]], F=[m[q] for q in spec["F"]])
     for _ in range(3):
         spec = draw(GP.mixed_pda_specs(max_states=2 if small else 3, max_trans=4 if small else 6, max_gamma=2))
         if small and len(spec["Q"]) > 3:
@@ -392,7 +398,7 @@ def op_cases(draw, tier, names=None):
         elif k == "nfa":
             if "nfa2" in kinds:
                 args[k] = draw(G.nfa_specs(max_states=4, sigma=sigma, pool=G.POOL[:8]))
-            elif draw(st.integers(0, 2)) == 0:
+            elif draw(st.integers(0, 1)) == 0:
                 args[k] = draw(G.ring_nfa_specs(sigma=sigma))          # eps-cycles entered at several states: closures computed in set-iteration order
             else:
                 args[k] = draw(G.mixed_nfa_specs(max_states=4, sigma=sigma))
@@ -411,7 +417,7 @@ def op_cases(draw, tier, names=None):
             args[k] = draw(safe_pda())
         elif k == "pda_small":
             args[k] = draw(safe_pda(small=True))
-        if k in ("pda", "pda_small") and draw(st.integers(0, 4)) == 0:
+        if k in ("pda", "pda_small") and draw(st.integers(0, 2)) == 0:
             # state names M<i>, q_accept<i>: the names the conversions give to the states they add (counted from the generated offset of the case)
             sp = args[k]
             pre = draw(st.sampled_from(["M", "M", "q_accept", "q"]))
@@ -461,9 +467,14 @@ HASH_SENSITIVE = ["check_equal_languages_long", "check_equal_languages_long", "n
                   "print_nfa", "print_pda", "epsilon_closure", "dfa_words_up_to_n", "regexp_words_up_to_n", "tm_words_up_to_n"]
 
 
+# operations whose results have been seen to depend on set-iteration order in broken versions of the library get a larger share of the cases
+HASH_FOCUS = ["nfa_accepts_all_short_words"] * 5 + ["nfa_simulates_all_short_words"] * 2 + ["pda_accepts_all_short_words"] * 3 + ["pda_words_up_to_n"] * 3 + \
+             ["pda_to_push_pop"] * 4 + ["pda_to_cfg"] * 2 + ["nfa_to_dfa"] * 2 + ["dfa_to_regexp"] * 2
+
+
 @st.composite
 def hash_cases(draw, tier):
-    return draw(op_cases(tier, HASH_SENSITIVE))
+    return draw(op_cases(tier, HASH_SENSITIVE + HASH_FOCUS))
 
 
 @st.composite
@@ -489,7 +500,7 @@ CLAUSES = [
            rule="registry of %d pure operations (conversions, minimisers, products, restrictions, normal forms without _in_place, acceptance tests, enumerators, simulators, "
                 "printers, isomorphism tests, NFA constructions, checkers) x generated arguments; the canonical content of every object argument is compared before and after "
                 "the call; non-trivial: an argument with >= 2 states / variables" % len(REG)),
-    Clause("hashseed", hash_cases, run_hashseed, quick=2500, thorough=12000, crossproc=True,
+    Clause("hashseed", hash_cases, run_hashseed, quick=4000, thorough=16000, crossproc=True,
            rule="the same generated cases (fixed Hypothesis seed) are evaluated in every worker process, each with a different PYTHONHASHSEED; the parent compares the result "
                 "signatures case by case; non-trivial: non-empty result for an argument with >= 2 states / variables"),
     Clause("logging", logging_cases, run_logging, quick=800, thorough=6000,
